@@ -36,6 +36,9 @@ def host(ctx):
     def try_(f, *a):
         try:
             return f(*a)
+        except RecursionError:
+            ctx.recursion_seen = True      # interpreter stack exhaustion (on either evaluator): the case is not judged
+            return 'caught'
         except Exception:
             return 'caught'
 
@@ -106,7 +109,7 @@ def gen_program(r):
         elif c < 10:
             defined = [l.split(' = ')[0] for l in lines if ' => ' in l]
             f = r.choice(defined + defined + FNS + ['len', 'str', 'af'])
-            arg = r.choice(['1', '2', '"ab"', 'hv', 'hl', 'a', 'x', '[1, 2]'])
+            arg = r.choice(['1', '2', '"ab"', 'hv', 'hl', 'a', 'x', '[1, 2]', '99', '120'])
             form = r.randrange(10)
             lines.append(['%s(%s)' % (f, arg), '%s(%s, %s)' % (f, arg, r.choice(['3', 'len', 'str', '"z"'])), 'try_(%s, %s)' % (f, arg), 'hm(%s, 2)' % f, 'map([1, 2], %s)' % f,
                           'try_(%s, %s, 4)' % (f, arg), '%s()' % f, 'filter([1, 0, 2], %s)' % f, '(%s) | %s' % (arg, f), 'r%d = try_(%s, %s)' % (len(lines), f, arg)][form])
@@ -201,6 +204,8 @@ def setup(ctx):
     ctx.ref_names = {id(v): k for k, v in refeval.BUILTINS.items()}
     ctx.M1 = M1 = monitors.NodeMonitor()
     ctx.M4 = monitors.ScopeMonitor()
+    import sys
+    sys.setrecursionlimit(6000)      # the monitors add frames; programs recurse ~100 lambda calls deep in some cases
     ctx.W = W = Watch(ctx)
     M1.on_enter, M1.on_exit, M1.on_raise = W.enter, W.exit, W.raised
 
@@ -234,6 +239,7 @@ def run_case(case, ctx):
         ctx.count('unparsable(dropped)')
         return
     W, M1, M4 = ctx.W, ctx.M1, ctx.M4
+    ctx.recursion_seen = False
     base = host(ctx)
     rn = dict(base, hl=list(base['hl']))
     inn = dict(base, hl=list(base['hl']))
@@ -276,7 +282,7 @@ def run_case(case, ctx):
     except Exception as e:
         got = ('other', type(e).__name__)
     events = M4.end()
-    if W.recursion:
+    if W.recursion or ctx.recursion_seen:
         ctx.count('cases_dropped(RecursionError seen during evaluation)')
         return
     ctx.count('programs_run')
